@@ -14,12 +14,14 @@ pub trait Prop: Sync {
 
 pub mod c09;
 pub mod c19;
+pub mod c20;
 pub mod tree;
 
 pub fn lookup(id: &str) -> Option<Box<dyn Prop>> {
     match id {
         "C09" => Some(Box::new(c09::C09)),
         "C19" => Some(Box::new(c19::C19)),
+        "C20" => Some(Box::new(c20::C20)),
         "C06" => Some(Box::new(tree::TreeProp(tree::Focus::C06))),
         "C07" => Some(Box::new(tree::TreeProp(tree::Focus::C07))),
         "C08" => Some(Box::new(tree::TreeProp(tree::Focus::C08))),
